@@ -203,8 +203,8 @@ func (c *Ctx) Flush() {
 			agree = modelURLText(model) == o.impl
 		case "implies":
 			// the model evaluates the hypothesis of a theorem ("clean"), the implementation its conclusion
-			hyp := model == "clean" || model == "safe"
-			concl := o.impl == "idempotent" || o.impl == "preserved"
+			hyp := model == "clean" || model == "safe" || model == "tidy"
+			concl := o.impl == "idempotent" || o.impl == "preserved" || o.impl == "same"
 			agree = !hyp || concl
 			c.Hit("theorem-tie:" + model + "/" + o.impl)
 		case "normtext":
